@@ -968,6 +968,12 @@ class AutoSerialize:
                 return seq_result
 
         elif ctype == "set":
+            # Fast-path: the items were written as a homogeneous numeric sequence
+            if (
+                group.attrs.get("_sequence_encoding") == "ndarray"
+                and "values" in group.array_keys()
+            ):
+                return set(AutoSerialize._read_array_np(group, "values").tolist())
             # Convert back from list to set
             items = []
             for i in range(
